@@ -341,6 +341,32 @@ theorem c16_kick_wakes (s : State) (sid i : Nat) (r : Reg) (hk : kickIdx s.regs 
   unfold stepKick
   simp only [hk, hr]
 
+/-- A kick with a stale identity changes nothing: `publisher::kick` may be given the pointer of a subscriber that has
+already left (its slot still carries the old `_sub`); `kick_lk` looks at *used* registrations only, so when no live
+registration belongs to that identity the whole state — in particular the freed slot that the next subscription will
+recycle — is untouched and nobody is resumed. -/
+theorem c16_stale_kick_changes_nothing (s : State) (sid : Nat)
+    (hstale : ∀ r ∈ s.regs, r.used = true → r.sub ≠ sid) : stepKick s sid = (s, Res.woken []) := by
+  unfold stepKick
+  rw [kickIdx_none hstale]
+
+/-- a recycled registration starts clean whatever happened to the slot before: not kicked, no awaiter, idle, at the
+requested position (`subscribe_lk` re-initialises every field of a re-used slot) -/
+theorem c16_recycled_slot_is_clean (hc : CfgOk maxLen minLen) (hs : Reachable maxLen minLen s) (sid : Nat) (m : Mode)
+    (p : Nat) : ∃ h' cov, (subscribeLk s sid m p).2 = Res.handle h' ∧
+      (subscribeLk s sid m p).1.regs[h']? = some (newReg sid m p cov) ∧
+      (newReg sid m p cov).kicked = false ∧ (newReg sid m p cov).awt = false ∧ (newReg sid m p cov).pos = p := by
+  obtain ⟨h', e1, _, e3, _⟩ := subscribeLk_spec (reachable_inv hc hs) sid m p
+  exact ⟨h', _, e1, e3, rfl, rfl, rfl⟩
+
+/-- leave, a late kick with the stale identity, then a subscription that recycles the slot: the newcomer is not
+kicked and reads the next published value (replayed on the headers by corpus/c16_stale_kick.txt) -/
+theorem c16_stale_kick_then_reuse :
+    ((run (init none 1)
+        [Op.subRecent 0 Mode.all, Op.leave 0, Op.kick 0, Op.subRecent 1 Mode.all, Op.push [5],
+         Op.advance 0, Op.getValue 0]).regs.map (fun r => (r.sub, r.kicked, r.got)))
+      = [(1, false, [5])] := by decide
+
 /-- a kicked subscriber gets end of stream from every later `next()`: `ready()` says no, `check_next()` says none -/
 theorem c16_kicked_ends (s : State) (r : Reg) (hk : r.kicked = true) : valueAt s r = none ∧ ¬ canAdvance s r := by
   constructor
